@@ -506,8 +506,12 @@ func (g *gl) checkAliasing(fn *glFn) {
 					written[v] = x.Pos()
 				}
 			}
-			if id, ok := ast.Unparen(x.Fun).(*ast.Ident); ok && id.Name == "copy" {
-				g.bad(x.Pos(), "copy")
+			if id, ok := ast.Unparen(x.Fun).(*ast.Ident); ok && id.Name == "copy" && len(x.Args) == 2 {
+				if v := root(x.Args[0]); v != nil {
+					written[v] = x.Pos()
+				} else {
+					g.bad(x.Pos(), "copy into something that is not a local slice")
+				}
 			}
 		}
 		return true
